@@ -18,7 +18,9 @@
      [a |-> "bool", b]                       true / false
      [a |-> "or", l, r, par]                 ( l OR r )  over non-time atoms; par = FALSE only as a whole condition
    Trees
-     [n |-> "leaf", x] | [n |-> "and", l, r] | [n |-> "par", e]
+     [n |-> "leaf", x] | [n |-> "and", l, r] | [n |-> "par", e] | [n |-> "or", l, r]
+   An "or" node is an unparenthesised OR of non-time sub-trees standing above every "and" of its
+   parenthesis level (`a OR b AND c` parses as a OR (b AND c)); C18 uses it for bare top-level ORs.
    `a AND b AND c` parses left-associatively, so an "and" node never has an
    unparenthesised "and" as its right child (ShapesFor only builds such trees).    *)
 EXTENDS Naturals, Integers, Sequences, FiniteSets, TLC, Tok, Ast
@@ -46,10 +48,11 @@ ValIdx(val) == 1 + (IF val.t1 = "y" THEN 4 ELSE 0) + (IF val.t2 = "y" THEN 2 ELS
 Leaf(x) == [n |-> "leaf", x |-> x]
 And(l, r) == [n |-> "and", l |-> l, r |-> r]
 Par(e) == [n |-> "par", e |-> e]
+OrT(l, r) == [n |-> "or", l |-> l, r |-> r]
 
 RECURSIVE AtomsOf(_)
 AtomsOf(c) == CASE c.n = "leaf" -> <<c.x>>
-                [] c.n = "and" -> AtomsOf(c.l) \o AtomsOf(c.r)
+                [] c.n \in {"and", "or"} -> AtomsOf(c.l) \o AtomsOf(c.r)
                 [] c.n = "par" -> AtomsOf(c.e)
 IsTime(x) == x.a = "time"
 TimeAtomsOf(c) == SelectSeq(AtomsOf(c), IsTime)
@@ -73,6 +76,7 @@ RECURSIVE HoldsG(_, _, _, _)
 HoldsG(c, t, val, noTime) ==
   CASE c.n = "leaf" -> HoldsAtom(c.x, t, val, noTime)
     [] c.n = "and"  -> HoldsG(c.l, t, val, noTime) /\ HoldsG(c.r, t, val, noTime)
+    [] c.n = "or"   -> HoldsG(c.l, t, val, noTime) \/ HoldsG(c.r, t, val, noTime)
     [] c.n = "par"  -> HoldsG(c.e, t, val, noTime)
 
 \* Holds(cond, point): the direct recursive truth definition
@@ -99,6 +103,7 @@ AtomToks(x) ==
 RECURSIVE Toks(_)
 Toks(c) == CASE c.n = "leaf" -> AtomToks(c.x)
              [] c.n = "and" -> Toks(c.l) \o <<Kw("AND")>> \o Toks(c.r)
+             [] c.n = "or" -> Toks(c.l) \o <<Kw("OR")>> \o Toks(c.r)
              [] c.n = "par" -> <<P("(")>> \o TightFirst(Toks(c.e)) \o <<PT(")")>>
 
 \* ----------------------------------------------------------------- lowering
@@ -119,6 +124,7 @@ LowerAtom(x) ==
 RECURSIVE Lower(_)
 Lower(c) == CASE c.n = "leaf" -> LowerAtom(c.x)
               [] c.n = "and" -> Bin("AND", Lower(c.l), Lower(c.r))
+              [] c.n = "or" -> Bin("OR", Lower(c.l), Lower(c.r))
               [] c.n = "par" -> Paren(Lower(c.e))
 
 \* ------------------------------------------------------------------- shapes
